@@ -294,3 +294,83 @@ def units(tier, seed):
         outside=["more than two variants", "fix mode"],
         witnesses_required=["no_root_variant", "root_and_alternate_variant", "deduplicated"],
         sharded=True, timeout_s=300 if tier == "quick" else 1500) for N in ([2] if tier == "quick" else [2, 3])]
+
+
+# ---------------------------------------------------------------- what the user is shown: CLI listing and API list
+def _listing_sql(noqa_first, in_loop, extra_unused):
+    noqa_line = "SELECT 1 AS a -- noqa: AM04"          # unused: nothing on this line violates AM04
+    if in_loop:
+        noqa_line = "{% for i in [1, 2] %}\nSELECT {{ i }} AS a -- noqa: AM04\n{% endfor %}"
+    viol_line = "select 2 AS b"                         # CP01 (inconsistent with SELECT / AS)
+    lines = [noqa_line, ";", viol_line] if noqa_first else [viol_line, ";", noqa_line]
+    if extra_unused:
+        lines.append("-- noqa: LT01")
+    return "\n".join(lines) + "\n"
+
+
+def listing_case(noqa_first, in_loop, extra_unused, route):
+    import os
+    import re
+    import shutil
+    import tempfile
+    sql = _listing_sql(noqa_first, in_loop, extra_unused)
+    d = tempfile.mkdtemp(prefix="c33l_")
+    try:
+        p = os.path.join(d, "q.sql")
+        open(p, "w").write(sql)
+        if route == "cli_human":
+            from click.testing import CliRunner
+            from sqlfluff.cli import commands as cmds
+            out = CliRunner().invoke(cmds.cli, ["lint", p, "--dialect", "ansi", "--rules", "CP01,AM04,LT01", "--warn-unused-ignores"]).output
+            rows = [(int(m.group(1)), int(m.group(2)), m.group(3), m.group(4).strip())
+                    for m in re.finditer(r"^L:\s*(\d+) \| P:\s*(\d+) \|\s*(\w+) \| (.*)$", out, re.M)]
+        else:
+            from sqlfluff.core import FluffConfig, Linter
+            lf = Linter(config=FluffConfig(overrides={"dialect": "ansi", "rules": "CP01,AM04,LT01"})).lint_string(sql, fname=p)
+            rows = [(v.line_no, v.line_pos, v.rule_code(), v.desc()) for v in lf.get_violations(filter_warning=False, warn_unused_ignores=True)]
+        problems = []
+        keys = [(r[0], r[1]) for r in rows]
+        if keys != sorted(keys):
+            problems.append(f"not in source order: {[(r[2], r[0], r[1]) for r in rows]}")
+        if len(set(rows)) != len(rows):
+            problems.append(f"listed more than once: {sorted({r for r in rows if rows.count(r) > 1})}")
+        return ("; ".join(problems) or None), rows, sql
+    finally:
+        shutil.rmtree(d, ignore_errors=True)
+
+
+def make_listing():
+    def factory(excluded=frozenset()):
+        def harness(c):
+            from symlite.values import choose
+            nf, lp, ex = bool(fresh_bool(c, "unused_noqa_before_the_violation")), bool(fresh_bool(c, "noqa_inside_a_loop")), bool(fresh_bool(c, "second_unused_noqa"))
+            route = choose(c, "route", ["cli_human", "api_get_violations"])
+            problem, rows, _ = listing_case(nf, lp, ex, route)
+            if any(r[2] == "NOQA" for r in rows):
+                c.witness("unused_noqa_warning_listed")
+            if any(r[2] == "CP01" for r in rows):
+                c.witness("rule_violation_listed")
+            return problem is None
+        return harness
+    return factory
+
+
+def replay_listing(cex):
+    route = ["cli_human", "api_get_violations"][int(cex.get("route", 0))]
+    problem, rows, sql = listing_case(bool(cex.get("unused_noqa_before_the_violation")), bool(cex.get("noqa_inside_a_loop")),
+                                      bool(cex.get("second_unused_noqa")), route)
+    return f"{route} with --warn-unused-ignores on {sql!r}: {problem}" if problem else None
+
+
+_units_dedupe_site = units
+
+
+def units(tier, seed):  # noqa: F811
+    return _units_dedupe_site(tier, seed) + [Unit(
+        name="c33.reported_listing", functions=["sqlfluff.cli.formatters.OutputStreamFormatter._format_file_violations", "LintedFile.get_violations "
+                                                "(warn_unused_ignores)", "IgnoreMask.generate_warnings_for_unused"],
+        bounds={"unused noqa": "before / after the rule violation", "inside a jinja loop": "yes / no", "second unused noqa": "yes / no",
+                "route": "CLI human output / API list"},
+        make=make_listing(), replay=replay_listing, stubs=["none: real CLI (click CliRunner) / real Linter on a real file"],
+        outside=["json / yaml formats (unused-noqa warnings are not part of them)"],
+        witnesses_required=["unused_noqa_warning_listed", "rule_violation_listed"], sharded=True, timeout_s=600)]
